@@ -113,6 +113,8 @@ SN_SHAPES = {
     "package-same-name": {"sp7/__init__.py": "", "sp7/base.py": "class Handler:\n    def h(self): ...\n", "sp7/sub.py": "from sp7.base import Handler\nclass Handler(Handler):\n    pass\nclass Leaf(Handler):\n    pass\n"},
     "nested-same-name": {"sn7a.py": "class A:\n    def m(self): ...\nclass Outer:\n    class A(A):\n        pass\n    class B(A):\n        pass\n"},
     "nested-same-name-import": {"sn7a.py": "class A:\n    def m(self): ...\n", "sn7b.py": "from sn7a import A\nclass Outer:\n    class A(A):\n        pass\n"},
+    # a base reached THROUGH an inherited member: Inner is declared by A, named as B.Inner
+    "base-through-inherited-member": {"sn7a.py": "class A:\n    class Inner:\n        x = 1\nclass B(A):\n    pass\nclass C(B.Inner):\n    pass\nclass D(C, A.Inner):\n    pass\n"},
     "with-mixin": {"sn7a.py": "class C:\n    pass\nclass Mixin:\n    pass\n", "sn7b.py": "from sn7a import C, Mixin\nclass C(Mixin, C):\n    pass\n"},
 }
 
